@@ -18,6 +18,7 @@ func init() {
 		ruleL2(c, "C06.L2")
 		ruleL3(c, "C06.L3")
 		ruleL4(c, "C06.L4")
+		ruleL5(c, "C06.L5")
 		ruleT3(c, "C06.L6")
 	}
 }
@@ -427,3 +428,19 @@ func ruleL4(c *Ctx, id string) {
 }
 
 var _ = types.Typ
+
+// ruleL5: the typestate rules treat the commit / abort family as "ends the
+// transaction and gives up every lock it holds".  That premise is checked
+// here: every terminator releases the recorded inodes on every path.
+func ruleL5(c *Ctx, id string) {
+	V, P, R := c.V, c.P, c.R
+	R.Rule(id, "every terminator gives up all locks on every path: Commit, CommitData, CommitUnstable, CommitFh and Abort always reach releaseInodes, whatever the commit's outcome", 5)
+	rel := P.NewAlways(callTo(V.releaseInodes))
+	for _, f := range []*ssa.Function{V.Commit, V.CommitData, V.CommitUnstable, V.CommitFh, V.Abort} {
+		if f == nil {
+			continue
+		}
+		R.Analysed[FuncName(f)] = true
+		R.Check(rel.Func(f), id, FuncName(f)+"|releases the locks on every path", P.Pos(f.Pos()), "every path through the terminator runs releaseInodes", "always-performs summary", "a path (e.g. a failed commit) returns with the transaction's inode locks still held: every later request on those inodes blocks for ever")
+	}
+}
